@@ -6,8 +6,10 @@
 // that keeps state between calls (a cache of the last lookup, a pooled buffer, a memo table) without
 // synchronisation satisfies every single-threaded law and still breaks this one.  For the cases the generator
 // marks (Case.Conc = rounds per goroutine) the case's own concatenation is repeated on two goroutines while
-// three other goroutines concatenate chunk lists of OTHER types (strings, a map[string]any holding int64 / string
-// / registered struct values, messages with Extra maps, a stream of any); every result, the case's and the
+// three other goroutines concatenate chunk lists of OTHER types (strings, int64, a map[string]any holding int64 /
+// string / registered struct values, messages with tool-call fragments, usage and Extra maps, a stream of any, a
+// registered struct type, map[string]string, and the stream-level entry points ConcatMessageStream /
+// concatStreamReader on messages, strings and message lists); every result, the case's and the
 // companions', must equal what the same call returned when it ran alone.  Nothing here depends on timing for its
 // verdict: a slow machine only makes the interleavings coarser (a miss, never an alarm).
 package main
@@ -94,10 +96,28 @@ func typedCompanion[T any](name string, items []T) *companion {
 }
 
 func initCompanions() {
+	i0, i1 := 0, 1
 	msgs := []*schema.Message{
-		{Role: schema.Assistant, Content: "he", Extra: map[string]any{"k": "a", "n": int64(1)}},
-		{Role: schema.Assistant, Content: "llo", Extra: map[string]any{"k": "b", "n": int64(2), "m": map[string]any{"x": "u"}}},
-		{Content: "!", Extra: map[string]any{"m": map[string]any{"x": "v"}}},
+		{Role: schema.Assistant, Content: "he", Extra: map[string]any{"k": "a", "n": int64(1)},
+			ToolCalls: []schema.ToolCall{{Index: &i1, ID: "c1", Function: schema.FunctionCall{Name: "g", Arguments: "{\"q\":"}}, {Index: &i0, ID: "c0", Function: schema.FunctionCall{Name: "f", Arguments: "[1,"}}}},
+		{Role: schema.Assistant, Content: "llo", Extra: map[string]any{"k": "b", "n": int64(2), "m": map[string]any{"x": "u"}},
+			ToolCalls: []schema.ToolCall{{Index: &i0, Function: schema.FunctionCall{Arguments: "2]"}}, {Index: &i1, Function: schema.FunctionCall{Arguments: "true}"}}}},
+		{Content: "!", Extra: map[string]any{"m": map[string]any{"x": "v"}}, ResponseMeta: &schema.ResponseMeta{FinishReason: "stop", Usage: &schema.TokenUsage{PromptTokens: 3, CompletionTokens: 4, TotalTokens: 7}}},
+	}
+	viaStream := func(name string, f func() (any, error)) *companion {
+		return &companion{name: name, run: func() (out any) {
+			if p := lib.Recover(func() {
+				v, err := f()
+				if err != nil {
+					out = "err " + err.Error()
+				} else {
+					out = v
+				}
+			}); p != nil {
+				out = fmt.Sprint("panic ", p)
+			}
+			return out
+		}}
 	}
 	companions = []*companion{
 		typedCompanion("string chunks", []string{"a", "b", "c"}),
@@ -120,6 +140,16 @@ func initCompanions() {
 		typedCompanion("any chunks (float64, nil)", []any{float64(1), nil, float64(2)}),
 		typedCompanion("Acc chunks (registered function)", []Acc{{N: 1}, {N: 2}, {N: 3}}),
 		typedCompanion("map[string]string chunks", []map[string]string{{"a": "x"}, {"a": "y", "b": "z"}}),
+		// the stream-level entry points
+		viaStream("message chunks through ConcatMessageStream", func() (any, error) {
+			return schema.ConcatMessageStream(schema.StreamReaderFromArray(msgs))
+		}),
+		viaStream("string chunks through concatStreamReader", func() (any, error) {
+			return compose.VerifConcatStreamReader(schema.StreamReaderFromArray([]string{"x", "", "yz"}))
+		}),
+		viaStream("message lists through concatStreamReader", func() (any, error) {
+			return compose.VerifConcatStreamReader(schema.StreamReaderFromArray([][]*schema.Message{{msgs[0], nil}, {msgs[1], msgs[2]}}))
+		}),
 	}
 	for _, k := range companions {
 		k.base = k.run()
